@@ -476,6 +476,25 @@ Example C03_vol_rename_respell_ex :
   end.
 Proof. split; [exact ex_respell_premises|]. vm_compute. repeat split. Qed.
 
+(* ================================================================ remove of a file that owns clusters keeps the volume well formed
+   (Model/VolRemove.v; full statement: Props/C05.v C05_vol_remove_reclaims_all).  Every clause of Spec/Wf.v: the freed clusters
+   are FFree (no lost cluster), the other chains are untouched (no broken chain, no cross-link, sizes still match), the names
+   left are still distinct, no orphan slot, and every premise is kept, so the theorem applies to the result again. *)
+From FatVerif Require Import Model.VolRemove Proofs.TableProofs Proofs.VolFileProofs Proofs.VolRemoveProofs.
+Theorem C03_vol_remove_file_keeps_wf : forall upper oem fold im fi name ev,
+  let g := parse_geom im in
+  fixed_root_geom g -> FatProofs.bytes_ok im ->
+  fi_inv fstore (val_ft (ft_of g)) (store_of g im) fi (g_clusters g) ->
+  Wf.wf_issues fold im = [] -> Forall attrs_sane (root_region_slots g im) ->
+  root_lookup upper oem im name = Ok ev -> Lfn.ev_is_dir ev = false ->
+  list_eqb (Lfn.ev_raw_name ev) DOT || list_eqb (Lfn.ev_raw_name ev) DOTDOT = false ->
+  exists im' fi',
+    vol_remove_file_root upper oem im fi name = Some (Ok tt, im', fi') /\
+    Wf.wf_issues fold im' = [] /\ parse_geom im' = g /\ FatProofs.bytes_ok im' /\
+    fi_inv fstore (val_ft (ft_of g)) (store_of g im') fi' (g_clusters g) /\
+    Forall attrs_sane (root_region_slots g im').
+Proof. exact vol_remove_file_keeps_wf. Qed.
+
 Print Assumptions C03_write_frame.
 Print Assumptions C03_write_effect.
 Print Assumptions C03_written_run_valid.
@@ -499,3 +518,4 @@ Print Assumptions C03_vol_create_many_keeps_wf_closed.
 Print Assumptions C03_vol_create_keeps_wf_needs_valid_utf16.
 Print Assumptions C03_vol_rename_keeps_wf_closed.
 Print Assumptions C03_vol_rename_keeps_wf_judge.
+Print Assumptions C03_vol_remove_file_keeps_wf.
